@@ -882,7 +882,7 @@ func accessPath(v ssa.Value) string {
 			if x.Op == token.MUL {
 				if fa, ok := x.X.(*ssa.FieldAddr); ok {
 					st := fa.X.Type().Underlying().(*types.Pointer).Elem().Underlying().(*types.Struct)
-					return accessPath(fa.X) + "." + st.Field(fa.Field).Name()
+					return accessPath(fa.X) + "." + core.FieldName(st, fa.Field)
 				}
 				if os := core.Origins(x); len(os) == 1 && os[0] != ssa.Value(x) {
 					v = os[0]
@@ -891,7 +891,7 @@ func accessPath(v ssa.Value) string {
 			}
 		case *ssa.Field:
 			st := x.X.Type().Underlying().(*types.Struct)
-			return accessPath(x.X) + "." + st.Field(x.Field).Name()
+			return accessPath(x.X) + "." + core.FieldName(st, x.Field)
 		case *ssa.Parameter:
 			return x.Name()
 		}
